@@ -2,7 +2,7 @@
 PROP = "C12"
 LEVEL = "exploration"
 ENGINE = "pyvc+bounded"
-HARNESS_MODULES = ["contracts.c12_elementwise"]
+HARNESS_MODULES = ["contracts.c12_elementwise", "contracts.c12_helpers"]
 
 
 def bounded(tier, seed, rep):
